@@ -5,12 +5,12 @@
    call Oracle._random_values): their de-duplication is checked on the implementation.
    Proved: a freshly sampled configuration is not in the tried set; every stored trial's values are in the tried set under its
    id (invariant TInv); hence in every reachable state of a run over a static space the stored trials carry pairwise different
-   values (C06_distinct_run); bounded effort. PARTIAL: for spaces that grow during the search the invariant TInv (every stored
+   values (C06_distinct_run), also across save+reload (C06_distinct_run_reload); bounded effort. PARTIAL: for spaces that grow during the search the invariant TInv (every stored
    configuration is known to the tried set) is proved only for steps that leave stored values alone; the growth case is
    explored by the implementation-level check (no duplicate start observed), not proved. *)
 From stdpp Require Import gmap list.
 From Coq Require Import ZArith.
-From KT Require Import Lifecycle Space Discover Rand RandDedup RandRun.
+From KT Require Import Lifecycle LInv LSync Space Discover Rand RandDedup RandRun RandReload.
 
 Theorem C06_sample_is_fresh : ∀ samp mc fuel sp tried seed col v seed',
   random_values samp mc fuel sp tried seed col = (Some v, seed') → v ∉ tried.
@@ -28,6 +28,13 @@ Theorem C06_distinct_run : ∀ samp draw allow tune mc c ops s,
   Forall (λ rs, Distinct rs.2) (rrun samp draw allow tune mc c s ops).
 Proof. exact distinct_run. Qed.
 
+(* ... and with save+reload at any point of the run: the tried set and the id->hash table are saved, the values of every trial
+   come back from its file *)
+Theorem C06_distinct_run_reload : ∀ samp draw allow tune mc c, abort_early c = false → ∀ ops s,
+  Inv s → DSyncP tv_values s → TInv s → Distinct s → good_run_r samp draw allow tune mc c s ops →
+  Forall (λ rs, Distinct rs.2) (rrun samp draw allow tune mc c s ops).
+Proof. exact distinct_run_reload. Qed.
+
 Theorem C06_bounded_effort : ∀ samp mc fuel sp tried seed col r seed',
   random_values samp mc fuel sp tried seed col = (r, seed') →
   (seed ≤ seed' ≤ seed + Z.of_nat fuel * Z.of_nat (length sp))%Z.
@@ -36,4 +43,5 @@ Proof. exact random_values_effort. Qed.
 Print Assumptions C06_sample_is_fresh.
 Print Assumptions C06_step.
 Print Assumptions C06_distinct_run.
+Print Assumptions C06_distinct_run_reload.
 Print Assumptions C06_bounded_effort.
